@@ -379,7 +379,7 @@ pub fn run(args: &Args) -> i32 {
     let mut rep = Report::new("C15", args.tier, args.seed, "exploration");
     rep.exhaustive = true;
     rep.rule = format!(
-        "integers: prefix sizes 1..8 x all flag values x boundary values (0, 2^N-2..2^N+1, +127/+128, 2^k-1/2^k/2^k+1 for k<=64) through encode->decode; decode of every first byte x every continuation sequence of length <= {} over {{00,01,7f,80,81,ff}}, 5..18-byte all-ff/80/81 tails with and without terminator, padded (non-minimal) encodings, every truncation. Strings: encode->decode of all byte strings of length <= {} (prefix size 8) and length <= 1 for sizes 2..7, lengths around the 7-bit prefix boundary; decode of ALL Huffman-flagged payloads of 0..{} bytes; every 1-symbol string followed by every padding of the two byte-aligned lengths in 0..15 bits and every bit pattern; EOS after every symbol and at every byte alignment; EOS (after nothing / one symbol of every code length) followed by every byte value, ff + every byte value, more EOS bits, all-ones strings of 4..10 bytes; non-Huffman literals at prefix boundaries and every truncation. Oracle refimpl::{{qint,qstr,huffman}} (table from quiche's octets crate). Non-trivial = inputs longer than one byte.",
+        "integers: prefix sizes 1..8 x all flag values x boundary values (0, 2^N-2..2^N+1, +127/+128, 2^k-1/2^k/2^k+1 for k<=64) through encode->decode; decode of every first byte x every continuation sequence of length <= {} over {{00,01,7f,80,81,ff}}, 5..18-byte all-ff/80/81 tails with and without terminator, padded (non-minimal) encodings, every truncation. Strings: encode->decode of all byte strings of length <= {} (prefix size 8) and length <= 1 for sizes 2..7, lengths around the 7-bit prefix boundary; decode of ALL Huffman-flagged payloads of 0..{} bytes; every 1-symbol string followed by every padding of the two byte-aligned lengths in 0..15 bits and every bit pattern; EOS after every symbol and at every byte alignment; EOS (after nothing / one symbol of every code length) followed by every byte value, ff + every byte value, more EOS bits, all-ones strings of 4..10 bytes; non-Huffman literals at prefix boundaries and every truncation; literals announcing 2^31 ... 2^64-1 bytes with two bytes present (child processes). Oracle refimpl::{{qint,qstr,huffman}} (table from quiche's octets crate). Non-trivial = inputs longer than one byte.",
         if thorough { 4 } else { 3 },
         if thorough { 3 } else { 2 },
         if thorough { 4 } else { 3 }
@@ -604,6 +604,44 @@ pub fn run(args: &Args) -> i32 {
     let mut total = Acc::new();
     for a in accs {
         total.merge(a);
+    }
+    // string literals announcing 2^31 ... 2^64-1 bytes with two bytes present: each in a child process (a decoder
+    // that allocates the announced length first makes the allocator abort, which cannot be caught in-process)
+    {
+        let mut inputs: Vec<(u8, Vec<u8>)> = Vec::new();
+        for size in [8u8, 4, 2] {
+            for l in [1u64 << 31, 1 << 32, 1 << 36, 1 << 40, 1 << 47, 1 << 61, 1 << 62, 1 << 63, u64::MAX] {
+                for huffman in [0u8, 1] {
+                    let mut b = qint::encode(size - 1, huffman, l);
+                    b.extend_from_slice(b"xy");
+                    inputs.push((size, b));
+                }
+            }
+        }
+        let iso = explore::par::run(&inputs, Acc::new, |_, (size, b), acc| {
+            acc.evaluations += 1;
+            let rep = || json!({"kind":"str-decode","size":size,"input":hex(b)});
+            match crate::common::run_isolated("C15", &rep()) {
+                crate::common::Isolated::NoViolation => {}
+                crate::common::Isolated::Violations(v) => {
+                    for (sig, msg) in v {
+                        acc.violation(sig, msg, (0, b.len()), rep);
+                    }
+                }
+                crate::common::Isolated::Aborted(sigl) => acc.violation(
+                    format!("C15:str-decode-process-aborted:size={size}"),
+                    format!("decode({}) killed the process ({sigl}): an allocation sized by the announced length?", hex(b)),
+                    (0, b.len()),
+                    rep,
+                ),
+                crate::common::Isolated::TimedOut => acc.violation(format!("C15:str-decode-does-not-return:size={size}"), format!("decode({}) did not return within 120 s", hex(b)), (0, b.len()), rep),
+                crate::common::Isolated::Machinery(e) => explore::machinery_failure(&format!("isolated run failed: {e}")),
+            }
+        });
+        for a in iso {
+            total.merge(a);
+        }
+        total.count("isolated_huge_announced_length_inputs", inputs.len() as u64);
     }
     total.sample(|| json!({"string_literal":"811f","meaning":"H=1, 1 byte 0x1f = 'a' (00011) + 3 bits of padding 111","reference":"accept, \"a\""}));
     total.sample(|| json!({"string_literal":"821fff","meaning":"'a' + 11 bits of padding","reference":"reject: padding longer than 7 bits"}));
